@@ -33,7 +33,8 @@ WithTol(e, r) == IF e.args.mode = "approx" /\ r.ok THEN [tol |-> e.args.tol] @@ 
 \* the meaning of one operation event applied to the first operand value a (programs thread intermediate values through it)
 RECURSIVE RunProg(_, _, _)
 ExpectWith(e, a) ==
-    CASE e.op = "cast"        -> a          \* C20 / C09: casting to another array kind or element type keeps shape and values
+    CASE e.op = "add_self"    -> IF a.ok THEN [a EXCEPT !.elems = [q \in 1..Len(a.elems) |-> 2 * a.elems[q]]] ELSE a     \* C11: add(v, v)
+      [] e.op = "cast"        -> a          \* C20 / C09: casting to another array kind or element type keeps shape and values
       [] e.op = "reshape"     -> Reshape(a, e.args.dst)
       [] e.op = "flatten"     -> Flatten(a)
       [] e.op = "transpose"   -> Transpose(a, e.args.axes)
